@@ -68,6 +68,14 @@ def level_obligations(ctx: Ctx, insts):
     ctx.discharged += (len(terms) - len(bad)) if not errs else 0
     ctx.cov["t_level_obligations"] = len(terms)
     ctx.cov["t_levels_not_modelled"] = not_modelled
+    # every creator family of the library is inside the modelled fragment on the unchanged tree (the lambda-based pairwise
+    # levels through the dedicated EPairwise node): a family that stops translating is a broken tie, not a silent downgrade
+    ctx.obligation("every level creator x dialect translates into the modelled fragment", not not_modelled, str(not_modelled)[:600])
+    if not_modelled:
+        k0 = sorted(not_modelled)[0]
+        ctx.violation(f"level SQL left the modelled fragment: {k0}: {not_modelled[k0]}",
+                      {"broken": "translation of " + k0, "detail": not_modelled},
+                      {"dialect": k0.split(":")[0], "level": k0.split(":")[1], "untranslatable": True}, found_input=False)
     ctx.cov["t_levels_unsupported_by_dialect"] = {k: sorted(v) for k, v in unsupported.items()}
     if metas:
         inst, d, sql, g = metas[len(metas) // 2]
@@ -142,6 +150,18 @@ def pctdiff_sqlite_integer_witness(ctx: Ctx):
     ctx.expect_known("KF-C16-pctdiff-sqlite-integer-division", reproduced, "SQLite no longer truncates the percentage difference of INTEGER columns")
 
 
+def damerau_variant_probe(ctx: Ctx):
+    """which Damerau-Levenshtein the engines implement: the unrestricted distance gives dl('ca','abc') = 2, the restricted
+    (optimal string alignment) variant gives 3.  The Gallina `dam_lev` is the unrestricted one."""
+    import duckdb
+
+    from harness import splink_util as su
+    got = {"duckdb": duckdb.connect().execute("select damerau_levenshtein('ca','abc')").fetchall()[0][0],
+           "sqlite": list(su.sqlite_api().con.execute("select damerau_levenshtein('ca','abc') v").fetchall()[0].values())[0]}
+    ctx.cov["damerau_levenshtein_variant"] = {d: ("unrestricted" if v == 2 else "restricted (OSA)" if v == 3 else f"other ({v})") for d, v in got.items()}
+    ctx.obligation("DuckDB and rapidfuzz damerau_levenshtein are the unrestricted variant modelled by dam_lev", all(v == 2 for v in got.values()), str(got))
+
+
 def replay_one(ctx: Ctx, insts):
     """re-run just the level / row of a replay file on the real engine against the documented predicate"""
     import json
@@ -210,6 +230,7 @@ def run(ctx: Ctx):
     c16_x.comparison_stage(ctx, comps, tabs, ["duckdb", "sqlite"], structures)
     found_concrete = len(ctx.violations) + len(ctx.known_hits) > before
     pctdiff_sqlite_integer_witness(ctx)
+    damerau_variant_probe(ctx)
 
     # failed translator obligations: X above normally exhibits the concrete failing pair; report what is left
     seen = {(v.get("what") or "") for v in ctx.violations}
